@@ -181,7 +181,13 @@ def render(pieces, e, mode, sb, h_override=None):
                 continue
             if width is not None and len(v) < width:
                 if not v.isascii():
-                    out.append(("any", width))
+                    # the statement does not say in which unit the minimum width counts a value with multi-byte characters: this
+                    # implementation counts characters, C printf (GNU find) bytes. Either is accepted - nothing else is.
+                    vb = v.encode("utf-8", "surrogateescape")
+                    pad_c = " " * (width - len(v))
+                    pad_b = " " * max(0, width - len(vb))
+                    out.append(("alt", [(vb + pad_c.encode()) if left else (pad_c.encode() + vb),
+                                        (vb + pad_b.encode()) if left else (pad_b.encode() + vb)]))
                     continue
                 v = v + " " * (width - len(v)) if left else " " * (width - len(v)) + v
             out.append(("b", v.encode("utf-8", "surrogateescape")))
@@ -202,6 +208,13 @@ def match_stream(actual, pos, chunks, terminator):
         if not actual.startswith(c[1], pos):
             return None
         return match_stream(actual, pos + len(c[1]), rest, terminator)
+    if c[0] == "alt":
+        for b in c[1]:
+            if actual.startswith(b, pos):
+                r = match_stream(actual, pos + len(b), rest, terminator)
+                if r is not None:
+                    return r
+        return None
     if c[0] == "octal":
         _, val, left, width = c
         j = pos
@@ -411,7 +424,7 @@ def run(ctx):
                 "sets (r, ./r, r/, ., absolute, r/sub, ./r/sub/, link to dir, link to file, dangling link, file, several roots, r//, ./); "
                 "modes -P -H -L; evaluations = (format, entry) renderings; distinct = format string")
     ctx.assumptions = ["independent renderer lib/c16.py over os.lstat/os.stat/os.readlink (record per follow mode as in C13)",
-                       "%m compared numerically; \\NNN <= 177; width judged for ASCII values; %Y only under -P and not for dangling links; %l not "
+                       "%m compared numerically; \\NNN <= 177; width of a non-ASCII value judged in characters or in bytes (either accepted); %Y only under -P and not for dangling links; %l not "
                        "for links the follow mode resolves; %h not for paths containing // or directly below /; %f/%h not for paths ending in /. or /..",
                        "time, name (%u %g), %b %k %S %D %F %M directives are C11's (totality) business"]
     self_check()
